@@ -54,8 +54,11 @@ fn main() {
         "c11" => props::c11::run(&args),
         "c12" => props::c12::run(&args),
         "c13" => props::c13::run(&args),
+        "c14" => props::c14::run(&args),
+        "c14-explain" => props::c14::explain(&args),
         "c15" => props::c15::run(&args),
         "c16" => props::c16::run(&args),
+        "c17" => props::c17::run(&args),
         "ind" => props::ind::run(&args),
         "dump" => props::dump::run(&args),
         other => {
